@@ -23,6 +23,25 @@ def _engines():
     return (("nearest_neighbor", pyrepseq.nearest_neighbor), ("symdel", pyrepseq.symdel))
 
 
+def _series_engines():
+    """the same search with the collection given as a pandas Series whose labels are not 0..n-1 in order
+    (positions must stay 0-based ordinals) and as a NumPy array"""
+    import numpy as np
+    import pandas as pd
+    import pyrepseq
+
+    def as_perm_series(seqs, k):
+        n = len(seqs)
+        return pyrepseq.nearest_neighbor(pd.Series(list(seqs), index=[(i * 7 + 3) % n for i in range(n)] if n % 7 else [(i + 1) % n for i in range(n)]), k)
+
+    def as_shifted_series(seqs, k):
+        return pyrepseq.symdel(pd.Series(list(seqs), index=range(100, 100 + len(seqs))), k)
+
+    def as_array(seqs, k):
+        return pyrepseq.symdel(np.array(list(seqs)), k)
+    return (("nearest_neighbor[Series,permuted-labels]", as_perm_series), ("symdel[Series,shifted-labels]", as_shifted_series), ("symdel[ndarray]", as_array))
+
+
 def spaces(tier):
     q = tier == "quick"
     uni = [("AC", 7), ("ACD", 5), ("ACDE", 4)] if q else [("AC", 10), ("ACD", 7), ("ACDE", 5)]
@@ -107,20 +126,20 @@ def check_case(case, acc):
         acc.cls("shorter-than-k", sum(1 for s in seqs if len(s) < k))
         acc.cls("homopolymer", sum(1 for s in seqs if len(s) >= 2 and len(set(s)) == 1))
         acc.extra["pairs_decided"] += len(seqs) * (len(seqs) - 1)
-    for name, fn in _engines():
+    for name, fn in _engines() + _series_engines():
         res = acc.call(fn, list(seqs), k)
         bad = diagnose(res, expected)
         if bad is None:
             acc.ok((name, digest(res)) if small else (name, case, len(res)), nontrivial=bool(expected))
             continue
         fclass, detail = bad
-        key = "%s/levenshtein/%s" % (name, fclass)
+        key = "%s/levenshtein/%s" % (name, fclass if "[" not in name else "differs-from-list-result")
         rcase, rexp, robs = case, sorted(expected)[:20], digest(res)[:20] if not isinstance(digest(res), str) else digest(res)
         if not small and fclass in ("missing", "spurious", "wrong-d", "self"):
             i, j = detail[0], detail[1]
             red = ("list", (seqs[i], seqs[j]), k)
-            r2 = acc.call(fn, list(red[1]), k)
+            r2 = acc.call(fn, list(red[1]), k) if "[" not in name else res
             e2 = neighbors_within(list(red[1]), k)
-            if diagnose(r2, e2) is not None:
+            if "[" not in name and diagnose(r2, e2) is not None:
                 rcase, rexp, robs = red, sorted(e2), digest(r2)
         acc.fail(key, rcase, rexp, robs, note="%s: %s (pair %s)" % (fclass, detail, [seqs[t] for t in detail[:2]] if isinstance(detail, tuple) and len(detail) >= 2 and isinstance(detail[0], int) else ""))
